@@ -25,6 +25,7 @@ CHECKS = {
  "C17": ("Theorems: add_salt leaves subject and assertions unchanged and adds exactly one 'salt' assertion; short lengths/ranges refused; a salted add carries exactly one salt assertion and is found by its predicate; different salts give different digests (under collision freedom); unsalted add deterministic. Oracles over sizes 1 B..100 KB for length ranges, refusals, independence of repeated saltings; envelopes imported into the model.", "5/C17"),
  "C18": ("Theorems over the structural model of expression/request/response/event envelopes: round trips (integral dates), documented shape, rejection of both/neither result and error, wrong subject tag, other function; known vs named functions distinct. Oracles: equality of parsed values directly and through bytes, malformed variants; envelopes imported into the model.", "5/C18"),
  "C19": ("Theorems over the structural model: attachments returns exactly the added attachment assertions with their payload/vendor/conformsTo; filters exact; none/several errors; malformed attachments invalid; has_type iff added. Oracles with payloads of any shape, repeated vendors, all filter combinations, malformed variants, salted type assertions; envelopes imported into the model.", "5/C19"),
+ "C20": ("Theorems over a small-step model of threads, mutexes and Once cells: programs whose lock requests respect a rank order never deadlock and always complete, for any number of threads and any schedule; the API's lock programs are ranked (complete finite table, by decide); the store inside a lazy's own initialiser can never block; the format context is accessed under mutual exclusion, so a formatting call that overlaps no registration returns its sequential text. Tied to /repo by lock programs extracted on every run from the running code through the verif_hooks trace (first use and steady state, fresh process each) and compared with the model's programs; concurrent stress oracle (2..16 threads racing from a barrier in fresh processes, every output compared with the sequential text). Partial: interleavings inside dcbor's store, memory-model effects and the real scheduler are exercised, not proved.", "5/C20"),
 }
 def main():
     checks = []
